@@ -47,7 +47,8 @@ RULE = ('type-directed: a pattern of depth <= 4 (quick) / 5 (thorough) over {lit
         'one-edit mutation stream produces near misses (scalar of another type or an == value of another type, a '
         'longer string, dropped / extra / renamed dict key, extra / missing list item, tuple length, list<->tuple, '
         'set<->frozenset at a random position), plus unrelated pool '
-        'targets; Match(default=) on a fraction. non-trivial = the pattern has a container or combinator node; '
+        'targets; Match(default=) on a fraction; every pattern is ALSO evaluated as ONE Match object on all '
+        'its targets in consecutive glom calls, each call judged against its own target. non-trivial = the pattern has a container or combinator node; '
         'distinct = distinct (pattern, default, target)')
 TRUSTED = base.TRUSTED + ['set / frozenset iteration order as observed in the same process (shipped to the model)',
                           '`re` on the catalogue patterns (sequences of [a-z], \\d, [^@], ., literal chars, each '
@@ -517,15 +518,34 @@ class DuplicateKey(Exception):
 
 def run_impl(case):
     import glom
-    out = {k: v for k, v in case.items() if not k.startswith('impl') and k not in ('spec_built', 'target_built')}
+    out = {k: v for k, v in case.items()
+           if not k.startswith('impl') and k not in ('spec_built', 'target_built', 'targets_built')}
     try:
         pobj, built = build2(case['spec'])
     except DuplicateKey:
         raise
     except Exception as e:
+        if 'targets' in case:
+            out['impl_seq'] = [{'ctor': type(e).__name__}]
+            out['spec_built'] = None
+            out['targets_built'] = case['targets']
+            return out
         out['impl'] = {'ctor': type(e).__name__}
         out['spec_built'] = None
         out['target_built'] = None
+        return out
+    if 'targets' in case:
+        # ONE Match object, consecutive calls: each call must decide its own target
+        m = glom.Match(pobj, default=base.build_arg(case['default'])) if case.get('default') is not None \
+            else glom.Match(pobj)
+        out['spec_built'] = built
+        tb, seq = [], []
+        for tj in case['targets']:
+            t = dec_v(tj)
+            tb.append(enc_v(t))
+            seq.append(base.observe(lambda: glom.glom(t, m)))
+        out['targets_built'] = tb
+        out['impl_seq'] = seq
         return out
     target = dec_v(case['target'])
     out['spec_built'] = built
@@ -606,12 +626,19 @@ def generate(rng, tier, scale, **focus):
             pass
         targets.append(jv(rng.choice(POOL)))
         seen = set()
+        uniq = []
         for t in targets:
             s = json.dumps(t, sort_keys=True)
             if s in seen:
                 continue
             seen.add(s)
+            uniq.append(t)
             yield {'spec': spec, 'default': default, 'target': t}
+        if len(uniq) >= 2:
+            # the same Match object on all these targets, one call after the other
+            ts = list(uniq)
+            rng.shuffle(ts)
+            yield {'spec': spec, 'default': default, 'targets': ts}
 
 
 def corpus():
@@ -626,7 +653,8 @@ def corpus():
 
 
 def key(case):
-    return {'spec': case['spec'], 'default': case.get('default'), 'target': case['target']}
+    return {'spec': case['spec'], 'default': case.get('default'), 'target': case.get('target'),
+            'targets': case.get('targets')}
 
 
 def nontrivial(case, verdict):
@@ -635,7 +663,13 @@ def nontrivial(case, verdict):
 
 
 def shrink(case):
-    b = {k: v for k, v in case.items() if not k.startswith('impl') and k not in ('spec_built', 'target_built')}
+    b = {k: v for k, v in case.items()
+         if not k.startswith('impl') and k not in ('spec_built', 'target_built', 'targets_built')}
+    if 'targets' in b:
+        ts = b['targets']
+        for i in range(len(ts)):
+            if len(ts) > 1:
+                yield dict(b, targets=ts[:i] + ts[i + 1:])
 
     def variants(j):
         k = j.get('k')
@@ -682,6 +716,8 @@ def shrink(case):
         yield dict(b, spec=v)
     if b.get('default') is not None:
         yield dict(b, default=None)
+    if 'target' not in b:
+        return
     t = b['target']
     for path in list(paths(t))[1:]:
         # drop the element at `path`
